@@ -43,6 +43,14 @@ var reqMID int32 = 0x1234
 // normalise or annotate the request it was given; that must not change what the requester asked to suppress)
 var handlerMutates []message.OptionID
 
+// badLength: option numbers the request carries with a value length the option registry does not allow (5 bytes in a uint
+// option of at most 4): the decoder skips such an option - the options BEHIND it, No-Response among them, must keep their numbers
+var badLength []message.OptionID
+
+// bwMode (`srvbw` lines): the connection has block-wise transfer enabled and the request is a GET that asks for the size of
+// the representation (Size2: 0, RFC 7959 section 4) - the block-wise layer sits between the response writer and the wire
+var bwMode bool
+
 // handlerMode: "" = the connection's handler calls ResponseWriter.SetResponse directly; "mux" = the handler is a mux.Router
 // installed through options.WithMux (the writer the application sees is mux's wrapper); "mw" = the same with a middleware
 // that stamps an option on the response message before the handler runs
@@ -90,11 +98,18 @@ func buildReq(udp bool, con bool, v int64, extra ...message.OptionID) []byte {
 	m.SetCode(codes.POST)
 	m.SetToken(reqToken)
 	_ = m.SetPath("/x")
+	if bwMode {
+		m.SetCode(codes.GET)
+		m.SetOptionUint32(message.Size2, 0)
+	}
 	if v >= 0 {
 		m.SetOptionUint32(message.NoResponse, uint32(v))
 	}
 	for _, id := range extra { // further options of the request, possibly numbered above No-Response
 		m.SetOptionBytes(id, []byte{0x5a, byte(id)})
+	}
+	for _, id := range badLength {
+		m.SetOptionBytes(id, []byte{1, 2, 3, 4, 5})
 	}
 	if udp {
 		m.SetMessageID(reqMID)
@@ -131,7 +146,7 @@ func srvUDP(t *testing.T, con bool, v int64, code codes.Code, extra ...message.O
 func srvUDPOnce(t *testing.T, con bool, v int64, code codes.Code, coincidence *bool, extra ...message.OptionID) (line string) {
 	synctest.Test(t, func(t *testing.T) {
 		set := "nocall"
-		cc, s := mem.NewUDPConn(mem.UDPOpts{Mutate: func(cfg *udpclient.Config) {
+		cc, s := mem.NewUDPConn(mem.UDPOpts{Blockwise: bwMode, Mutate: func(cfg *udpclient.Config) {
 			if handlerMode != "" {
 				options.WithMux(muxHandler(code, &set)).UDPClientApply(cfg)
 				return
@@ -181,6 +196,7 @@ func srvTCP(t *testing.T, v int64, code codes.Code, extra ...message.OptionID) (
 	synctest.Test(t, func(t *testing.T) {
 		set := "nocall"
 		cc, peer, err := mem.NewTCPConn(mem.TCPOpts{Mutate: func(cfg *tcpclient.Config) {
+			cfg.BlockwiseEnable = bwMode
 			if handlerMode != "" {
 				options.WithMux(muxHandler(code, &set)).TCPClientApply(cfg)
 				return
@@ -389,15 +405,31 @@ func TestC20(t *testing.T) {
 				fmt.Fprintf(w, "accepted %v %d\n", resp.IsModified(), resp.Code())
 			}
 		case len(f) == 5 && f[0] == "srvreal":
+			badLength = nil
 			v := int64(-1)
 			if f[3] != "-" {
 				v, _ = strconv.ParseInt(f[3], 10, 64)
 			}
 			c, _ := strconv.ParseUint(f[4], 10, 16)
 			fmt.Fprintln(w, srvReal(f[1] == "multi", f[2] == "con", v, codes.Code(c)))
+		case len(f) == 5 && f[0] == "srvbw":
+			handlerMutates, badLength = nil, nil
+			bwMode = true
+			v := int64(-1)
+			if f[3] != "-" {
+				v, _ = strconv.ParseInt(f[3], 10, 64)
+			}
+			c, _ := strconv.ParseUint(f[4], 10, 16)
+			if f[1] == "udp" {
+				fmt.Fprintln(w, srvUDP(t, f[2] == "con", v, codes.Code(c)))
+			} else {
+				fmt.Fprintln(w, srvTCP(t, v, codes.Code(c)))
+			}
+			bwMode = false
 		case len(f) == 5 && (f[0] == "srvmux" || f[0] == "srvmw"):
 			handlerMode = strings.TrimPrefix(f[0], "srv")
 			handlerMutates = nil
+			badLength = nil
 			v := int64(-1)
 			if f[3] != "-" {
 				v, _ = strconv.ParseInt(f[3], 10, 64)
@@ -419,14 +451,18 @@ func TestC20(t *testing.T) {
 		case (len(f) == 5 || len(f) == 6) && f[0] == "srv":
 			var extra []message.OptionID
 			handlerMutates = nil
+			badLength = nil
 			if len(f) == 6 {
 				// x<ids>: further options carried by the request; m<ids>: options the handler inserts into the request
-				// object before it responds
-				for _, e := range strings.Split(strings.TrimLeft(f[5], "xm"), ",") {
+				// object before it responds; b<ids>: options carried with a value length their definition does not allow
+				for _, e := range strings.Split(strings.TrimLeft(f[5], "xmb"), ",") {
 					id, _ := strconv.ParseUint(e, 10, 16)
-					if strings.HasPrefix(f[5], "m") {
+					switch {
+					case strings.HasPrefix(f[5], "m"):
 						handlerMutates = append(handlerMutates, message.OptionID(id))
-					} else {
+					case strings.HasPrefix(f[5], "b"):
+						badLength = append(badLength, message.OptionID(id))
+					default:
 						extra = append(extra, message.OptionID(id))
 					}
 				}
